@@ -334,7 +334,11 @@ func judgeLogStructure(c *Ctx, path, lock string, ops []fsOp, wit map[string]int
 	// suffix reads and ignore lists on a fresh handle
 	r := sched.Derive(uint64(len(all)), 16)
 	for k := 0; k < 8 && len(all) > 0; k++ {
-		from := r.Intn(len(all) + 1)
+		from := uint64(r.Intn(len(all) + 1))
+		if k >= 5 {
+			// read offsets beyond the end of the log, up to the largest one: nothing is "from there onward"
+			from = []uint64{uint64(len(all)) + 1, uint64(len(all)) + 1000, 1 << 31, 1 << 32, 1<<63 - 1, 1 << 63, 1<<63 + 3, 1<<64 - 1}[(int(r.Intn(8))+k)%8]
+		}
 		h, _ := file_storage.NewFileStorage(path, lock)
 		ign := map[int]bool{}
 		// the ignore lists are built the way an operator builds them: by one or several calls, each by
@@ -372,15 +376,15 @@ func judgeLogStructure(c *Ctx, path, lock string, ops []fsOp, wit map[string]int
 			shape = append(shape, fmt.Sprintf("%v:%d", byOff, len(list)))
 		}
 		c.Distinct("ignore-calls|" + strings.Join(shape, ","))
-		got, err := h.GetMessages(uint64(from))
+		got, err := h.GetMessages(from)
 		h.Close()
 		if err != nil {
 			c.Violate("C16/suffix-read-fails", err.Error(), wit)
 			continue
 		}
 		var want []string
-		for p := from; p < len(all); p++ {
-			if !ign[p] {
+		for p := from; p < uint64(len(all)); p++ {
+			if !ign[int(p)] {
 				want = append(want, all[p].ID)
 			}
 		}
@@ -399,7 +403,7 @@ func judgeLogStructure(c *Ctx, path, lock string, ops []fsOp, wit map[string]int
 }
 
 func checkC16(c *Ctx) {
-	c.Rule = "many short concurrent histories on the real FileStorage: W in {1,2,4,8,16} writer goroutines with separate handles plus readers, and W separate OS processes (verifd worker fswriter, CLOCK_MONOTONIC timestamps); message sizes empty, 10 B, 4 KiB, JSON line just below/above 64 KiB, 200 KiB, line just below 1 MiB; after quiescence a structural check through a fresh handle and the raw file (exactly-once, offset == position, earlier reads are runs of the final log, suffix reads, ignore lists by id and offset) and a porcupine linearizability check of the recorded history against the sequential log model. Ignore lists are built by 1-4 IgnoreMessages calls mixing ids and offsets. distinct = distinct observed interleavings (order of appends/reads by call time) over the (mode, writers, size class) configurations"
+	c.Rule = "many short concurrent histories on the real FileStorage: W in {1,2,4,8,16} writer goroutines with separate handles plus readers, and W separate OS processes (verifd worker fswriter, CLOCK_MONOTONIC timestamps); message sizes empty, 10 B, 4 KiB, JSON line just below/above 64 KiB, 200 KiB, line just below 1 MiB; after quiescence a structural check through a fresh handle and the raw file (exactly-once, offset == position, earlier reads are runs of the final log, suffix reads, ignore lists by id and offset) and a porcupine linearizability check of the recorded history against the sequential log model. Ignore lists are built by 1-4 IgnoreMessages calls mixing ids and offsets. Read offsets beyond the end of the log, up to 2^64-1, must yield nothing. distinct = distinct observed interleavings (order of appends/reads by call time) over the (mode, writers, size class) configurations"
 	c.Assumptions = []string{"porcupine v1.3.0 as linearizability checker (60 s cap => inconclusive)", "timestamps from CLOCK_MONOTONIC, shared by all processes of the machine"}
 	type cfg struct {
 		mode    string
